@@ -276,8 +276,10 @@ impl Evaluator {
         };
 
         // If the king can move, we're definitely not in checkmate or stalemate, so we can
-        // skip the expensive check for checkmate or stalemate through move generation
-        if !king_has_move {
+        // skip the expensive check for checkmate or stalemate through move generation.
+        // When in check the shortcut can't be trusted: the attack map is computed with the
+        // king on the board, so squares behind the king on a sliding attacker's ray look safe
+        if !king_has_move || state.is_check() {
             let legal_moves = MoveGenerator::compute_legal_moves(state);
             if legal_moves.is_empty() && state.is_check() {
                 return if state.turn_to_move() == perspective {
